@@ -1,6 +1,8 @@
 import CCT.Props.C14
 import CCT.Props.C06
 import CCT.Model.Reasons
+import CCT.Model.IntLimit
+import CCT.Props.C07
 /-!
 # C13 — failures are fail-closed and use the documented error families
 
@@ -355,5 +357,55 @@ theorem verifyDelegation_accepts_iff_no_reason (C : CryptoFns) (name : PStr) (u 
     cases hr : verifyDelegationJ C name u t gpg with
     | ok x => cases x; rfl
     | error e => have := verifyDelegation_reports_applicable C name u t gpg e hr; rw [h] at this; cases this
+
+-- ---------------------------------------------------------------------------------------------------------------------
+-- the verifiers as CPython runs them on payloads holding integers beyond the conversion limit (Model/IntLimit.lean)
+
+/-- the refusal layer only ever turns an outcome into an argument error: acceptance under it is acceptance of the underlying model (so every soundness
+theorem — C01, C03, C05, C06 — holds for it as it stands) -/
+theorem intLimit_accept_implies (payload : J) (r : Res Unit) (h : withIntLimit payload r = .ok ()) : r = .ok () ∧ payload.intsOK = true := by
+  unfold withIntLimit at h
+  split at h
+  · split at h
+    · rename_i hi; exact ⟨h, hi⟩
+    · cases h
+  · split at h <;> cases h
+  · rename_i h1 h2
+    rcases r with e | u
+    · cases e <;> simp_all
+    · exact absurd rfl (h1 u)
+
+/-- on the format's domain (payloads that were loaded from a file, or any well-formed value) the layer changes nothing: completeness theorems hold for it there -/
+theorem intLimit_same_on_wf (payload : J) (hw : payload.WF) (r : Res Unit) : withIntLimit payload r = r := by
+  unfold withIntLimit
+  have := CCT.C07.intsOK_of_wf payload hw
+  split <;> simp [this]
+
+/-- the layer keeps every outcome inside the documented families: whatever the underlying verifier reports, the layered one reports the same or an argument error -/
+theorem intLimit_families (payload : J) (r : Res Unit) : withIntLimit payload r = r ∨ withIntLimit payload r = .error .arg := by
+  unfold withIntLimit
+  split
+  · split
+    · exact Or.inl rfl
+    · exact Or.inr rfl
+  · split
+    · exact Or.inl rfl
+    · exact Or.inr rfl
+  · exact Or.inl rfl
+
+/-- a payload the encoder refuses is never accepted by any verifier, and never reported as a mere signature error: it is an argument error or one of the
+errors raised before serialization is reached -/
+theorem refused_payload_outcomes (payload : J) (h : payload.intsOK = false) (r : Res Unit) :
+    withIntLimit payload r ≠ .ok () ∧ withIntLimit payload r ≠ .error .signature := by
+  unfold withIntLimit
+  constructor
+  · split
+    · simp [h]
+    · simp [h]
+    · rename_i h1 _; intro hr; exact h1 () hr
+  · split
+    · simp [h]
+    · simp [h]
+    · rename_i _ h2; exact h2
 
 end CCT.C13
